@@ -52,7 +52,10 @@ fn twin(h: &History, recs: &[StepRec]) -> Option<(History, Vec<(usize, usize)>)>
                 if cut {
                     oversize_at.push((i, 0));
                 }
-                *rx = RxPlan { gap1: g1, rx1: r1, gap2: g2, rx2: r2, fault_at: None };
+                // a radio fault of the original run belongs to the environment, not to the rejected frames: the twin
+                // meets it at the same radio call
+                let fault_at = rx.fault_at;
+                *rx = RxPlan { gap1: g1, rx1: r1, gap2: g2, rx2: r2, fault_at };
             }
             Step::RxcListen(v) => {
                 let mut cut = false;
@@ -67,7 +70,8 @@ fn twin(h: &History, recs: &[StepRec]) -> Option<(History, Vec<(usize, usize)>)>
 fn norm(trace: &[Ev], drop_deliveries: bool) -> Vec<Ev> {
     // "no update" is the report for a frame that is not accepted; on the nb front-end a packet that does not
     // fit the device's radio buffer is reported as BufferTooSmall while the window stays open
-    trace.iter().filter(|e| !matches!(e, Ev::Resp(s) if s == "NoUpdate" || s == "Err(State(BufferTooSmall))") && !(drop_deliveries && matches!(e, Ev::Deliver { .. }))).cloned().collect()
+    // (the number of a failed radio call counts from the start of the history: frames heard earlier shift it)
+    trace.iter().filter(|e| !matches!(e, Ev::Resp(s) if s == "NoUpdate" || s == "Err(State(BufferTooSmall))") && !(drop_deliveries && matches!(e, Ev::Deliver { .. }))).map(|e| if let Ev::Fault(_) = e { Ev::Fault(0) } else { e.clone() }).collect()
 }
 
 pub fn judge_pair(h: &History) -> Result<(u32, bool), Failure> {
@@ -123,6 +127,12 @@ pub fn judge_pair(h: &History) -> Result<(u32, bool), Failure> {
         return Err(Failure::new("non-interference", case(), format!("the run with rejected frames has {} transactions, its twin {}\nwith: {}\ntwin: {}", recs_p.len(), recs_t.len(), render(&recs_p, 6), render(&recs_t, 6))).with_fp("different-number-of-transactions"));
     }
     for (a, b) in recs_p.iter().zip(recs_t.iter()) {
+        // a transaction with a radio fault in which frames were heard: a frame heard by Class C listening is one
+        // more radio call, so "the same radio call" is not the same moment in the two runs; the pair is judged
+        // up to here
+        if matches!(&a.step, Step::Send { rx, .. } | Step::Join(rx) if rx.fault_at.is_some()) && !a.deliveries.is_empty() {
+            return Ok((n_rejected, something));
+        }
         let which = a.deliveries.iter().find(|d| is_rejected(&d.verdict) || matches!(d.verdict, Verdict::Oversize));
         let kind = |recs: &[StepRec], upto: usize| -> String {
             // classify the most recent rejected frame at or before this step for the fingerprint
